@@ -106,7 +106,8 @@ fn judge(s: &Spec, obs: &Obs) -> Vec<(String, String)> {
         bad("keep-alive-before-configuration", format!("Keep Alive at {} ms, Login Acknowledged at {t_ack} ms", k.0));
     }
     // the time routing completes if nothing interferes
-    let t_done = t_ci.map(|t| t + s.lat.iter().sum::<u64>());
+    // (read off the service call log, so that it does not depend on when an implementation starts routing)
+    let t_done = obs.calls.iter().find_map(|c| if let Call::Select { t, .. } = c { Some(*t + s.lat[2]) } else { None }).or_else(|| t_ci.map(|t| t + s.lat.iter().sum::<u64>()));
 
     match &disconnect {
         Some((x, reason)) => {
